@@ -264,6 +264,37 @@ HEX_TASKS[H + "calculate_index#all-members"] = dict(
         result_type="None", props=["C14"], use_at_calls=False))
 
 
+# ---- C08: an indicator that is given a new candle manager moves over completely: itself and the helper series that already
+# exist (an Indicator object that was used before it was handed to a Hexital)
+def setter_builder(ex, st):
+    from hexvc.state import DictP, ListP, ObjP
+    src = ex.ctx.source
+    icls = src.module("hexital.indicators.ema").classes["EMA"]
+    mcls = src.module("hexital.core.candle_manager").classes["CandleManager"]
+    for c in (icls, mcls):
+        src.resolve_class_bases(c)
+    mk = lambda tf: st.alloc(ObjP(mcls, {"candles": st.alloc(ListP([])), "timeframe": tf, "timeframe_fill": False, "candles_lifespan": None, "candlestick_type": None}))
+    old, new = mk(None), mk("T5")
+    mki = lambda nm, subs, man: st.alloc(ObjP(icls, {"_output_name": nm, "_candles": old, "candles": st.heap[old.oid].fields["candles"], "timeframe": None,
+                                                      "timeframe_fill": False, "candles_lifespan": None, "candlestick_type": None,
+                                                      "sub_indicators": st.alloc(DictP(subs)), "managed_indicators": st.alloc(DictP(man))}))
+    deep = mki("owner_sub_deep", {}, {})
+    sub = mki("owner_sub", {"owner_sub_deep": deep}, {})
+    man = mki("owner_data", {}, {})
+    owner = mki("owner", {"owner_sub": sub}, {"data": man})
+    yield st, [owner, new], {}, {"self": owner, "manager": new, "sub": sub, "man": man, "deep": deep, "new": new, "old": old}
+
+
+HEX_TASKS[I + "candle_manager__setter"] = dict(builder=setter_builder, contract=Contract(
+    I + "candle_manager__setter",
+    ensures={
+        "the-indicator-adopts-the-manager": "self._candles is new and self.candles is new.candles and self.timeframe == 'T5'",
+        "helper-series-at-any-depth-follow": "sub._candles is new and man._candles is new and deep._candles is new"
+                                             " and sub.candles is new.candles and man.candles is new.candles and deep.candles is new.candles",
+        "the-managers-are-not-modified": "new.timeframe == 'T5' and new.candles_lifespan is None and old.timeframe is None",
+    }, result_type="None", props=["C08", "C13"], use_at_calls=False))
+
+
 # ---- C13: removing one member leaves the other members and every candle manager in place
 def remove_builder(ex, st):
     from hexvc.state import DictP, ListP, ObjP
